@@ -211,6 +211,11 @@ func (f *PostProcessorRegistrationDelegate) applyPostProcessBeforeInstantiation(
 }
 
 func (f *PostProcessorRegistrationDelegate) ResolveAfterInstantiation(meta *component_definition.Meta, name string) error {
+	//the processors append candidates to the properties of the (shared) definition: start every creation
+	//attempt from scratch, otherwise a creation that is re-attempted after a failure injects them twice
+	for _, prop := range meta.GetAllProperties() {
+		prop.Injects = nil
+	}
 	for _, processor := range f.componentPostProcessors {
 		if ipb, ok := processor.(container.InstantiationAwareComponentPostProcessor); ok {
 			ok, err := ipb.PostProcessAfterInstantiation(meta.Raw, name)
